@@ -48,6 +48,11 @@ pub fn empty_bytes() -> (r: &'static [u8]) ensures r@.len() == 0 { &[] }
 
 /// R9: `assert!(c, ..)` — the condition becomes a proof obligation (panic freedom)
 pub fn runtime_assert(c: bool) requires c {}
+/// R9: `debug_assert!(c)` -- compiled out of release builds.  If it cannot be shown to hold the check is *undecided*: an
+/// unprovable debug assertion is not evidence that a property is broken.
+pub fn debug_assert_shim(c: bool)
+    requires c,            // [UNDECIDED.debug_assert.cannot_be_shown_to_hold]
+{}
 pub assume_specification[i32::is_negative](x: i32) -> (r: bool) ensures r == (x < 0);
 pub assume_specification[i32::is_positive](x: i32) -> (r: bool) ensures r == (x > 0);
 // std combinators without closures that vstd does not specify
